@@ -79,6 +79,9 @@ def gen_cases(ctx, n):
         if kind == "formulation":
             f = rng.choice(FORMULATIONS)
             extra = rng.choice([[], [{"expression": "V_m' = -V_m/tau_m + g", "initial_value": "0"}], [{"expression": "w' = -w**3 + g", "initial_value": "1"}]])
+            if f["order"] >= 2 and rng.random() < 0.4:
+                # another equation reads the DERIVATIVE of the shape (`g'` in the function / ODE forms, the chain's own variable in the chain form)
+                extra = [{"expression": rng.choice(["V_m' = -V_m/tau_m + {gd}", "w' = -w**3 + 2*{gd}"]), "initial_value": "0"}]
             a_form, b_form = rng.sample(["function", "ode", "chain"], 2)
 
             def build(form):
@@ -91,7 +94,10 @@ def gen_cases(ctx, n):
                 else:
                     dyn = json.loads(json.dumps(f["chain"]))
                     vm = dict(f["chain_map"])
-                return {"dynamics": dyn + json.loads(json.dumps(extra))}, vm
+                ex = json.loads(json.dumps(extra))
+                for e_ in ex:
+                    e_["expression"] = e_["expression"].replace("{gd}", f["chain_map"].get("g__d", "g") if form == "chain" else "g'")
+                return {"dynamics": dyn + ex}, vm
             ia, vma = build(a_form)
             ib, vmb = build(b_form)
             varmap = {vma[k]: vmb[k] for k in vma}
